@@ -528,6 +528,8 @@ def main():
     drv = hlib.Driver()
     import c20_gem
     c20_gem.run(res, rng, drv, a.tier)
+    import c20_wire
+    c20_wire.run(res, rng, drv, a.tier)
     if drv.available and drv_lines:
         try:
             outs = drv.run([l for _, l in drv_lines])
